@@ -35,6 +35,9 @@ pub enum Fault {
     /// process (the harness runs as root, for which permissions do not apply: the child drops to uid/gid 65534 first)
     ReadOnlyDir,
     ReadOnlyFile,
+    /// the path is a symbolic link whose target's directory does not exist / a symbolic link to itself
+    DanglingSymlink,
+    SymlinkLoop,
     /// RLIMIT_FSIZE = permille/1000 of the full output length (in a child process)
     ShortWrite(u32),
 }
@@ -83,6 +86,8 @@ pub fn from_json(v: &Value) -> Option<Case> {
             "DevFull" => Fault::DevFull,
             "ReadOnlyDir" => Fault::ReadOnlyDir,
             "ReadOnlyFile" => Fault::ReadOnlyFile,
+            "DanglingSymlink" => Fault::DanglingSymlink,
+            "SymlinkLoop" => Fault::SymlinkLoop,
             _ => return None,
         }
     };
@@ -268,6 +273,18 @@ pub fn check(c: &Case, obs: &mut Obs) -> Result<(), Fail> {
             let _ = std::fs::set_permissions(&good, std::fs::Permissions::from_mode(0o444));
             (good.clone(), true)
         }
+        Fault::DanglingSymlink => {
+            let l = format!("{}/dangling-{}.{}", dir, uniq, ext);
+            let _ = std::fs::remove_file(&l);
+            let _ = std::os::unix::fs::symlink(format!("{}/gone-{}/target.{}", dir, uniq, ext), &l);
+            (l, true)
+        }
+        Fault::SymlinkLoop => {
+            let l = format!("{}/loop-{}.{}", dir, uniq, ext);
+            let _ = std::fs::remove_file(&l);
+            let _ = std::os::unix::fs::symlink(&l, &l);
+            (l, true)
+        }
         Fault::ShortWrite(_) => (good.clone(), true),
     };
     // validate that the environment really provides the fault (else the class is skipped, never asserted)
@@ -279,6 +296,7 @@ pub fn check(c: &Case, obs: &mut Obs) -> Result<(), Fail> {
             }
             Err(_) => true,
         },
+        Fault::DanglingSymlink | Fault::SymlinkLoop => std::fs::symlink_metadata(&path).is_ok() && std::fs::OpenOptions::new().write(true).create(true).open(&path).is_err(),
         Fault::DevFull => is_char_device("/dev/full") && {
             use std::io::Write;
             std::fs::OpenOptions::new().write(true).open("/dev/full").and_then(|mut f| f.write_all(b"probe")).is_err()
@@ -354,6 +372,9 @@ pub fn check(c: &Case, obs: &mut Obs) -> Result<(), Fail> {
         if let Fault::ParentIsFile = c.fault {
             let _ = std::fs::remove_file(format!("{}/file-{}", dir, uniq));
         }
+        if matches!(c.fault, Fault::DanglingSymlink | Fault::SymlinkLoop) {
+            let _ = std::fs::remove_file(&path);
+        }
         if let Fault::ReadOnlyDir = c.fault {
             let _ = std::fs::remove_dir_all(format!("{}/ro-dir-{}", dir, uniq));
         }
@@ -424,6 +445,8 @@ fn fault_strategy() -> BoxedStrategy<Fault> {
         2 => Just(Fault::DevFull),
         1 => Just(Fault::ReadOnlyDir),
         1 => Just(Fault::ReadOnlyFile),
+        1 => Just(Fault::DanglingSymlink),
+        1 => Just(Fault::SymlinkLoop),
         6 => prop_oneof![1 => Just(0u32), 1 => Just(999u32), 4 => 0u32..1000].prop_map(Fault::ShortWrite),
     ]
     .boxed()
@@ -446,7 +469,7 @@ pub fn run(e: &'static Engine) {
     crate::engine::run_regress(e, &|c, o| replay(e, c, o));
     let all_faults = vec![
         Fault::None, Fault::ExistingLonger, Fault::MissingDir, Fault::IsDir, Fault::ParentIsFile, Fault::NameTooLong, Fault::EmbeddedNul,
-        Fault::EmptyPath, Fault::ReadOnlyProc, Fault::ReadOnlySys, Fault::DevFull, Fault::ReadOnlyDir, Fault::ReadOnlyFile, Fault::ShortWrite(0), Fault::ShortWrite(1), Fault::ShortWrite(500), Fault::ShortWrite(999),
+        Fault::EmptyPath, Fault::ReadOnlyProc, Fault::ReadOnlySys, Fault::DevFull, Fault::ReadOnlyDir, Fault::ReadOnlyFile, Fault::DanglingSymlink, Fault::SymlinkLoop, Fault::ShortWrite(0), Fault::ShortWrite(1), Fault::ShortWrite(500), Fault::ShortWrite(999),
     ];
     let mut jobs: Vec<Job> = Vec::new();
     for (wi, writer) in [Writer::Svg, Writer::Png].into_iter().enumerate() {
@@ -467,7 +490,7 @@ pub fn run(e: &'static Engine) {
         }
     }
     e.par(jobs);
-    let total: u32 = e.tier.pick(640, 6400);
+    let total: u32 = e.tier.pick(1600, 12800);
     let shards = e.tier.pick(16u32, 64);
     let mut jobs: Vec<Job> = Vec::new();
     for _ in 0..shards {
